@@ -246,6 +246,7 @@ func runC05(w *World, r *Report) {
 	// a wallet's checkpoint record is rewritten at every truncation: a record that is skipped keeps saying what the wallet
 	// owned one truncation ago (funds that were spent since exist twice)
 	checkpointWritesEveryAddress(w, r, "checkpoint-replaces-every-record")
+	foldOnlyAdds(w, r, "checkpoint-fold-only-adds")
 	// ---- 0b. the operands are worked on in place; a copy back into an operand is the undo of a failure, nothing else
 	r.rule("restore-only-on-failure", "in Supply / Transfer a copyFrom into an operand is followed only by error returns: the success path has updated the operands in place (a compute-on-copies-then-commit scheme overwrites one result with the other when both operands are the same object)", 2)
 	for _, spec := range [][2]string{{"Melange", "Supply"}, {"", "Transfer"}} {
@@ -698,6 +699,8 @@ func dagWriters(w *World) map[string]bool {
 
 func runC06(w *World, r *Report) {
 	r.NotDecided = []string{"numerical equality of the result with the reference sum", "agreement across nodes holding the same vertex set", "which tip is chosen when several exist (map iteration order)"}
+	// the balance is a walk over the ancestors: the edges of an admitted vertex are the ancestry
+	everyParentLinked(w, r, "every-looked-up-parent-is-linked")
 	dagW := dagWriters(w)
 	r.Extra["dag_writer_methods"] = len(dagW)
 	r.rule("queries-read-only", "no mutator (graph writer, badger write, cache write, exclusive ledger lock, store to a ledger field) is reachable from a read entry point", 4)
@@ -949,6 +952,9 @@ func runC07(w *World, r *Report) {
 	}
 	li := ComputeLocks(w, acctScope)
 	truncateObligations(w, r, li)
+	// a received vertex that is not linked to a parent it declares is a root for validateLeaf: after a truncation (the parent
+	// checkpointed) it would be validated against nothing, before it against the full history
+	everyParentLinked(w, r, "every-looked-up-parent-is-linked")
 
 	// the other side of the exclusion: whoever reads the checkpointed funds holds the ledger lock, so that
 	// the checkpoint it sees and the DAG it walks belong to the same side of a truncation
@@ -1713,4 +1719,25 @@ func carryThresholdInclusive(w *World, r *Report, rule string) {
 			}
 		})
 	}
+}
+
+// foldOnlyAdds: the fold of a truncation visits the vertices newest first (a breadth-first walk from the cut): what it keeps
+// per wallet must not depend on that order. Supply commutes; Drain and Transfer are all-or-nothing on the running value — a
+// spend that is seen before the funding that paid for it fails and is lost, the receiver is credited all the same.
+func foldOnlyAdds(w *World, r *Report, rule string) {
+	r.rule(rule, "what the save walk of a truncation does per vertex (fundsMemMap.nextVertex and what it calls) only ever adds with Supply; the one subtraction of a truncation (in.Drain(out)) happens once per wallet after the walk, in saveToStorage — the folded result is independent of the order in which the walk delivers the vertices", 1)
+	nv := w.Func("accountant", "fundsMemMap", "nextVertex")
+	if nv == nil || len(nv.Blocks) == 0 {
+		r.bad(rule, "fundsMemMap.nextVertex", "-", "the per-vertex fold is identifiable", "fundsMemMap.nextVertex not found")
+		return
+	}
+	bad := ""
+	for _, d := range deepCalls(nv, byName(nDrain, nTransfer), 3) {
+		bad += fmt.Sprintf(" %s is called in %s at %s for every folded vertex;", shortCallee(d.c), shortFn(d.c.Parent()), lineOf(w, d.c))
+	}
+	adds := deepCalls(nv, byName(nSupply), 3)
+	if bad != "" {
+		bad += " the walk delivers a wallet's spend before the funding that paid for it: the failed subtraction is lost"
+	}
+	r.check(bad == "" && len(adds) > 0, rule, "fundsMemMap.nextVertex/mutators", w.Pos(nv.Pos()), fmt.Sprintf("the per-vertex fold adds (%d Supply calls) and never subtracts", len(adds)), bad)
 }
